@@ -168,6 +168,56 @@ class Curated(EnumPart):
         return Out(nt=True)
 
 
+# start condition 6 of HTML blocks: the block-level tag names of the specification (0.30, section 4.6), copied from its text
+BLOCK_TAGS = ('address article aside base basefont blockquote body caption center col colgroup dd details dialog dir div dl dt '
+              'fieldset figcaption figure footer form frame frameset h1 h2 h3 h4 h5 h6 head header hr html iframe legend li link main '
+              'menu menuitem nav noframes ol optgroup option p param section source summary table tbody td tfoot th thead title tr '
+              'track ul').split()
+# other names: inline elements, custom elements, names added by later versions of the specification
+NOT_BLOCK_TAGS = 'a b em i span img code kbd q s u search picture x-y my-tag blink abc h7 tablex divx'.split()
+
+
+class HtmlBlockTags(EnumPart):
+    """'text' + newline + a line that begins with a tag.  A block-level name opens an HTML block that interrupts the
+    paragraph (and takes the rest of the line with it); any other complete tag alone on its line may not interrupt a
+    paragraph (start condition 7), an incomplete one is text: either way it stays inside the paragraph."""
+    name = 'html-block-tags'
+    rule = ('every block-level tag name of the specification and 20 other names x {<t>, </t>, <t/>, <t a="b">, <T>, <t> x, <t, <t\\na>} '
+            'on the line after a paragraph line: HTML block for the former, paragraph continuation for the latter; '
+            'non-trivial = all; distinct = (name, form)')
+    FORMS = ['<%s>', '</%s>', '<%s/>', '<%s a="b">', '<%S>', '<%s> x *y*', '<%s', '<%s\na="b">']
+
+    def shards(self, tier):
+        return 1
+
+    def items(self, tier, k, n):
+        for name in BLOCK_TAGS + NOT_BLOCK_TAGS:
+            for form in self.FORMS:
+                yield {'tag': name, 'form': form}
+
+    def check(self, case):
+        name, form = case['tag'], case['form']
+        if name not in BLOCK_TAGS + NOT_BLOCK_TAGS or form not in self.FORMS:
+            return Out(skip='malformed case')
+        line = form.replace('%S', name.upper()).replace('%s', name)
+        md = 'text\n' + line + '\n'
+        if name in BLOCK_TAGS:
+            exp = '<p>text</p>\n' + line + '\n'
+        elif form == '<%s':
+            exp = '<p>text\n&lt;%s</p>\n' % name
+        else:
+            # raw inline HTML inside the paragraph (emphasis after it is still read)
+            exp = '<p>text\n' + line.replace('*y*', '<em>y</em>') + '</p>\n'
+        labels = ('block-level' if name in BLOCK_TAGS else 'other',)
+        try:
+            got, _ = renderers.render('Html', {}, md)
+        except Exception as exc:
+            return Out(Fail('equivalent-html', 'raised ' + exc_sig(exc), markdown=md, error=repr(exc)), nt=True, labels=labels)
+        if got != exp:
+            return Out(Fail('equivalent-html', 'html block tag table', markdown=md, actual=got, expected=exp), nt=True, labels=labels)
+        return Out(nt=True, labels=labels)
+
+
 class C03(Prop):
     id = 'C03'
     rule = Documents.rule
@@ -178,7 +228,7 @@ class C03(Prop):
     )
 
     def parts(self):
-        return [Documents(), Curated()]
+        return [Documents(), Curated(), HtmlBlockTags()]
 
 
 PROP = C03()
